@@ -261,6 +261,14 @@ def explore(make_bodies, sched_files, bound, on_execution, opcode_funcs=(), max_
     make_bodies() -> (bodies, ctx) builds fresh thread bodies (fresh classes / state) per execution;
     on_execution(sched, ctx) judges one finished execution.  Returns dict of counters."""
     stats = {"executions": 0, "max_points": 0, "deadlocks": 0, "capped": False, "contended": 0, "interleaved": 0}
+    if opcode_funcs:
+        # CPython instruments a code object for per-instruction events only once a frame of it has asked for them: the
+        # very first execution in a process reports fewer points than every later one.  One discarded execution first.
+        if setup:
+            setup()
+        b0, _ = make_bodies()
+        Scheduler(b0, sched_files, prefix=[], opcode_funcs=opcode_funcs).run()
+        stats["warmup_executions"] = 1
     stack = [[]]
     while stack:
         prefix = stack.pop()
